@@ -502,6 +502,20 @@ theorem step_inv (s : State) (h : SInv s) (op : Op) :
   | panic =>
     simp only [step]
     exact ⟨by simp, fun s' o heq => by simp at heq⟩
+  | getBorrow a q g w =>
+    simp only [step]
+    exact ⟨by simp, fun s' o heq => by simp at heq; rw [← heq.1]; exact h⟩
+  | republish a q g q2 =>
+    simp only [step]
+    split
+    · exact ⟨by simp, fun s' o heq => by simp at heq⟩
+    · refine ⟨by simp, fun s' o heq => ?_⟩
+      simp at heq
+      rw [← heq.1]
+      exact sinv_set s a _ h (inv_congr (s a) _ (h a) rfl rfl rfl)
+  | ctrlBorrow a id w =>
+    simp only [step]
+    split <;> exact ⟨by simp, fun s' o heq => by simp at heq; rw [← heq.1]; exact h⟩
 
 theorem runOps_inv : ∀ (ops : List Op) (s : State) (acc : List Obs), SInv s →
     SInv (runOps s ops acc).1 ∧ (runOps s ops acc).2.outcome ≠ some .internal
@@ -542,6 +556,53 @@ theorem runHist_inv : ∀ (hist : List (List Op)) (s : State), SInv s →
     rcases List.mem_cons.1 ho with he | hm
     · subst he; exact h2
     · exact h4 o hm
+
+/-- `capabilities.get<&g>`: the returned capability has the wanted type `g`; when it is valid, a capability is
+published at the path, its controller is live and `g` is related to both their types -/
+theorem getCap_spec (ac : Acct) (q : Nat) (g : T) :
+    (getCap ac q g).ty = g ∧
+    ((getCap ac q g).id ≠ 0 →
+      ∃ cap c, assocFind q ac.published = some cap ∧ cap.id = (getCap ac q g).id ∧
+        assocFind cap.id ac.live = some c ∧ canBorrow g cap.ty = true ∧ canBorrow g c.ty = true) := by
+  unfold getCap
+  cases hq : assocFind q ac.published with
+  | none => simp
+  | some cap =>
+    cases hr : resolve ac cap g with
+    | none => simp only [hr]; simp
+    | some r =>
+      simp only [hr, true_and]
+      intro _
+      unfold resolve at hr
+      split at hr
+      · simp at hr
+      · rename_i hcb
+        split at hr
+        · simp at hr
+        · rename_i c hc
+          split at hr
+          · simp at hr
+          · rename_i hcb2
+            exact ⟨cap, c, rfl, rfl, hc, by simpa using hcb, by simpa using hcb2⟩
+
+theorem getCap_of (ac : Acct) (q : Nat) (g : T) (cap : Cap) (c : Ctrl) (hq : assocFind q ac.published = some cap)
+    (hc : assocFind cap.id ac.ctrls = some c) (h1 : canBorrow g cap.ty = true) (h2 : canBorrow g c.ty = true) :
+    getCap ac q g = ⟨cap.id, g⟩ := by
+  simp [getCap, resolve, hq, hc, h1, h2]
+
+/-- retarget touches no other controller -/
+theorem retarget_frame (s s1 : State) (a id p : Nat) (o : Obs) (h : step s (.retarget a id p) = .ok (s1, o))
+    (id' : Nat) (hne : id' ≠ id) : assocFind id' (s1 a).ctrls = assocFind id' (s a).ctrls := by
+  simp only [step] at h
+  split at h
+  · simp at h; rw [← h.1]
+  · split at h
+    · simp at h
+    · split at h
+      · simp at h
+      · simp at h
+        rw [← h.1]
+        simp [State.set, find_set_other _ _ _ hne]
 
 theorem sinv_init : SInv init := fun _ => inv_init
 
